@@ -170,6 +170,61 @@ _real_time = _time.time
 _time.time = _sim_time           # pinned before tapescript is imported
 _time.time_ns = lambda: int(CLOCK.read() * 1_000_000_000)
 
+# Every other route to the wall clock is owned as well: a library that asks
+# `datetime.now()`, `time.gmtime()` or `clock_gettime(CLOCK_REALTIME)` instead of
+# `time()` is as right as before, and must see the same simulated clock (otherwise a
+# correct refactoring would look like a violation).  Monotonic / performance counters
+# are not wall clocks and stay real (the harness uses them for its budgets).
+import datetime as _dt                               # noqa: E402
+
+_real_datetime = _dt.datetime
+_real_date = _dt.date
+
+
+class _SimDateTime(_real_datetime):
+    @classmethod
+    def now(cls, tz=None):
+        return cls.fromtimestamp(CLOCK.read(), tz)
+
+    @classmethod
+    def utcnow(cls):
+        return cls.fromtimestamp(CLOCK.read(), _dt.timezone.utc).replace(tzinfo=None)
+
+    @classmethod
+    def today(cls):
+        return cls.fromtimestamp(CLOCK.read())
+
+
+class _SimDate(_real_date):
+    @classmethod
+    def today(cls):
+        return _SimDateTime.fromtimestamp(CLOCK.read()).date()
+
+
+_SimDateTime.__name__ = _SimDateTime.__qualname__ = 'datetime'
+_SimDate.__name__ = _SimDate.__qualname__ = 'date'
+_dt.datetime = _SimDateTime
+_dt.date = _SimDate
+
+
+def _wrap_default_now(fn):
+    def wrapped(*a):
+        return fn(CLOCK.read()) if not a or a[0] is None else fn(*a)
+    wrapped.__name__ = fn.__name__
+    return wrapped
+
+
+_time.gmtime = _wrap_default_now(_time.gmtime)
+_time.localtime = _wrap_default_now(_time.localtime)
+_time.ctime = _wrap_default_now(_time.ctime)
+_real_strftime = _time.strftime
+_time.strftime = lambda fmt, t=None: _real_strftime(fmt, _time.localtime() if t is None else t)
+if hasattr(_time, 'clock_gettime'):
+    _real_cg, _real_cgns = _time.clock_gettime, _time.clock_gettime_ns
+    _time.clock_gettime = lambda cid: CLOCK.read() if cid == _time.CLOCK_REALTIME else _real_cg(cid)
+    _time.clock_gettime_ns = lambda cid: int(CLOCK.read() * 1_000_000_000) \
+        if cid == _time.CLOCK_REALTIME else _real_cgns(cid)
+
 if 'tapescript' in sys.modules:
     raise HarnessError('tapescript imported before the clock seam was pinned')
 sys.path.insert(0, REPO)
